@@ -184,8 +184,20 @@ const c05Prelude = `
 
 const c05ProbeProgram = `(list other-pkg:own (handler-bind ((condition (lambda (c &rest a) 'none))) other-pkg:g1) g1 g2 g3 g4 g5 g6 gm gv (f1 1) (f2 1) (f3 1) (+ 1 2) (let ([x 5]) (labels ((up (n) (if (<= n 0) x (up (- n 1))))) (up 20))))`
 
-func c05NewRuntime() *rt.R {
-	r := rt.New(rt.Opts{MaxPhys: 300, MaxNest: 600, MaxMacro: 50, MaxTail: 5000})
+// c05NewRuntime builds a runtime under one of several legitimate host configurations
+// (a limit switched off is as legitimate as a limit set).
+func c05NewRuntime(variant int) *rt.R {
+	o := rt.Opts{MaxPhys: 300, MaxNest: 600, MaxMacro: 50, MaxTail: 5000}
+	switch variant % 4 {
+	case 1:
+		o.MaxNest = -1 // evaluation-nesting guard disabled
+	case 2:
+		o.MaxTail = -1 // tail-iteration bound disabled
+		o.MaxAlloc = 50_000
+	case 3:
+		o.MaxNest, o.MaxMacro = 5000, 200
+	}
+	r := rt.New(o)
 	if v := r.Env.LoadString("prelude", c05Prelude); v.Type == lisp.LError {
 		panic("c05 prelude: " + v.String())
 	}
@@ -206,8 +218,10 @@ func c05Snapshot(r *rt.R) c05State {
 
 func c05Run(w *fw.W, idx int) {
 	r := w.RNG(idx, "hist")
-	main := c05NewRuntime()
-	twin := c05NewRuntime()
+	variant := idx / 3
+	main := c05NewRuntime(variant)
+	twin := c05NewRuntime(variant)
+	w.SetAdd("host_configurations", []string{"limits-set", "nesting-guard-off", "tail-bound-off+alloc-cap", "wide-limits"}[variant%4])
 	nsteps := r.Range(12, 40)
 	var history []string
 	before0 := c05Snapshot(main)
@@ -218,6 +232,15 @@ func c05Run(w *fw.W, idx int) {
 	for step := 0; step < nsteps; step++ {
 		entry := fw.Pick(r, c05Entries)
 		fault := fw.Pick(r, c05Faults)
+		if (variant%4 == 1 || variant%4 == 3) && fault == "nesting-limit" {
+			fault = "none" // the planted nesting depth only exceeds the limit of the other configurations
+		}
+		if variant%4 == 2 && fault == "tail-iter-limit" {
+			fault = "none"
+		}
+		if variant%4 == 3 && fault == "macro-limit" {
+			fault = "none"
+		}
 		// build the step's program: effects e0..ek with a fault after position pos
 		neff := r.Range(1, 4)
 		pos := r.Intn(neff + 1)
